@@ -78,4 +78,22 @@ LEMMAS = [
                                   "prefix-values": "pv(a, d, lo, lo + h, b) == pv(a2, d2, lo2, lo2 + h, b)",
                                   "suffix-digits": "forall(lambda q: a[q] + d == a2[q - lo + lo2] + d2, lo + h, lo + n)"}, variant="h")},
     ),
+    dict(
+        name="pv_split",            # value of a range = value of its head * b**(length of tail) + value of its tail
+        params={"a": "arr", "d": "int", "lo": "int", "mid": "int", "hi": "int", "b": "int"},
+        split={"b": [2, 4, 10]},
+        requires={"order": "lo <= mid and mid <= hi"},
+        ensures={"split": "pv(a, d, lo, hi, b) == pv(a, d, lo, mid, b) * ipow(b, hi - mid) + pv(a, d, mid, hi, b)"},
+        proof="h = mid\nwhile h < hi:\n    h += 1",
+        loops={1: dict(invariant={"range": "mid <= h <= hi",
+                                  "split": "pv(a, d, lo, h, b) == pv(a, d, lo, mid, b) * ipow(b, h - mid) + pv(a, d, mid, h, b)"}, variant="hi - h")},
+    ),
+    dict(
+        name="mod_small",           # (m*Q + r) divided by Q is m remainder r, for 0 <= r < Q and a small multiplier m
+        params={"m": "int", "Q": "int", "r": "int"},
+        split={"m": [0, 1, 2, 3]},
+        requires={"range": "Q >= 1 and 0 <= r and r < Q"},
+        ensures={"mod": "(m * Q + r) % Q == r", "div": "(m * Q + r) // Q == m"},
+        proof="pass",
+    ),
 ]
